@@ -634,3 +634,69 @@ Proof.
   - intros rank Hr. eexists. split; [reflexivity|]. split; auto. apply rank_split_spec; auto.
   - apply rank_split_split_of; auto.
 Qed.
+
+(* ------------------------------------------------------------------ *)
+(* part 8: one sampler object over a sequence of set_epoch / list calls  *)
+(* ------------------------------------------------------------------ *)
+Section ObjectProofs.
+  Context {cfg : Type}.
+  Variable set_ep : cfg -> Z -> cfg.
+  Variable iter : cfg -> run.
+  Variable get_ep : cfg -> Z.
+  Hypothesis set_set : forall c e e', set_ep (set_ep c e) e' = set_ep c e'.
+  Hypothesis set_get : forall c, set_ep c (get_ep c) = c.
+  Hypothesis get_set : forall c e, get_ep (set_ep c e) = e.
+
+  (* the k-th list(sampler) of any call sequence shows what a sampler shows whose epoch is the argument of the last
+     set_epoch before it (the initial epoch if there was none): nothing else is carried from call to call *)
+  Lemma run_ops_spec : forall ops c,
+      run_ops set_ep iter c ops = map (fun e => iter (set_ep c e)) (iter_epochs (get_ep c) ops).
+  Proof.
+    induction ops as [|[e|] ops IH]; intro c; simpl; auto.
+    - rewrite IH, get_set. apply map_ext. intro e'. rewrite set_set. reflexivity.
+    - rewrite set_get, IH. reflexivity.
+  Qed.
+End ObjectProofs.
+
+Lemma dist_object_spec : forall c draw rank ops,
+    dist_object c draw rank ops = map (fun e => dist_run (d_set_epoch c e) draw rank) (iter_epochs (d_epoch c) ops).
+Proof.
+  intros. unfold dist_object.
+  apply (run_ops_spec d_set_epoch (fun c' => dist_run c' draw rank) d_epoch); auto. intros []; reflexivity.
+Qed.
+
+Lemma w_object_spec : forall c draw rank ops,
+    w_object c draw rank ops = map (fun e => w_run (w_set_epoch c e) draw rank) (iter_epochs (w_epoch c) ops).
+Proof.
+  intros. unfold w_object.
+  apply (run_ops_spec w_set_epoch (fun c' => w_run c' draw rank) w_epoch); auto. intros []; reflexivity.
+Qed.
+
+Lemma cb_object_spec : forall c draw rank ops,
+    cb_object c draw rank ops = map (fun e => cb_run (cb_set_epoch c e) draw rank) (iter_epochs (cb_epoch c) ops).
+Proof.
+  intros. unfold cb_object.
+  apply (run_ops_spec cb_set_epoch (fun c' => cb_run c' draw rank) cb_epoch); auto. intros []; reflexivity.
+Qed.
+
+(* two list(sampler) calls under the same epoch show the same *)
+Lemma same_epoch_same_run : forall (f : Z -> run) es i j e,
+    nth_error es i = Some e -> nth_error es j = Some e -> nth_error (map f es) i = nth_error (map f es) j.
+Proof. intros f es i j e Hi Hj. rewrite !nth_error_map, Hi, Hj. reflexivity. Qed.
+
+(* ------------------------------------------------------------------ *)
+(* part 9: shuffle=False                                                 *)
+(* ------------------------------------------------------------------ *)
+Lemma dist_repeats_need_shuffle : forall c draw rank, d_rep c <> 1 -> d_shuffle c = false ->
+    r_out (dist_run c draw rank) = AssertFail.
+Proof.
+  intros c draw rank Hr Hs. simpl. unfold dist_iter, dist_global.
+  apply Nat.eqb_neq in Hr. rewrite Hr, Hs. reflexivity.
+Qed.
+
+Lemma dist_no_shuffle : forall c draw, d_rep c = 1 -> d_shuffle c = false ->
+    dist_global c draw = Ok (seq 0 (d_n c)) /\ forall rank, r_seeds (dist_run c draw rank) = [] /\ r_reqs (dist_run c draw rank) = [].
+Proof.
+  intros c draw Hr Hs. unfold dist_global. rewrite Hr, Hs. simpl. split; auto.
+  intro rank. rewrite Hs. split; reflexivity.
+Qed.
